@@ -194,7 +194,7 @@ pub fn tape_checks(ctx: &Ctx) -> Vec<(&'static str, Box<CheckFn<'_>>)> {
 	vec![(
 		"inputs",
 		Box::new(move |g: &mut Gen, stats: &mut Stats| {
-			let e = *g.pick(&entries);
+			let e = pick_entry(g, &entries);
 			let (mut bytes, family) = gen_input(&e.ty, g, 200);
 			if e.is_recursive() && bytes.len() > 256 {
 				bytes.truncate(256);
